@@ -15,7 +15,7 @@ pub fn def() -> PropDef {
         streams,
         run,
         floors,
-        rule: "differential: the crate's verdict and value versus the independent reference decoder on the same (octets, options), all 8 option sets per input, and element-wise for try_read_greedy; plus non-interference (bits the reference never consulted are flipped and the crate's result must not change). Inputs as C01 (mutated reference encodings, exhaustive attribute x payload-length grid, truncations, bit flips, flag words, random). Distinct = distinct (input, option set); non-trivial = input of at least 6 octets whose verdict is decided after the flag word (not a bare version/reserved-bit rejection).",
+        rule: "differential: the crate's verdict and value versus the independent reference decoder on the same (octets, options), all 8 option sets per input, and element-wise for try_read_greedy; plus non-interference (bits the reference never consulted are flipped and the crate's result must not change). Inputs as C01 (mutated reference encodings, exhaustive attribute x payload-length grid, truncations, bit flips, flag words, random). Distinct = distinct (input, option set); non-trivial = input of at least 6 octets whose verdict is decided after the flag word (not a bare version/reserved-bit rejection). Also: the public per-type decoders against the reference payload formats; top-of-range inputs; free-field sweeps (a 16-bit field the reference never consults is set to every value 0..255 and the usual boundaries).",
     }
 }
 
